@@ -140,6 +140,54 @@ def search_plugin(pid, r, n, stats):
     return None
 
 
+def _c12_pair(r):
+    """(old, new) region dicts biased to 'new almost contains old'."""
+    k = r.random()
+    cx, cy = r.choice([15.0, 20.0, 32.5]), r.choice([15.0, 18.0, 40.0])
+    if k < 0.35:
+        rad = r.choice([5.0, 6.5, 10.0])
+        d = [r.choice([0.2, 0.5, 0.62, 0.7, 0.8, 0.95]) * rad for _ in range(4)]
+        old = {"type": "RectangularRegion", "x1": cx - d[0], "y1": cy - d[1], "x2": cx + d[2], "y2": cy + d[3]}
+        new = {"type": "CircularRegion", "cx": cx, "cy": cy, "r": rad}
+    elif k < 0.6:
+        w, h = r.choice([4.0, 10.0]), r.choice([4.0, 6.0])
+        old = {"type": "RectangularRegion", "x1": cx - w, "y1": cy - h, "x2": cx + w, "y2": cy + h}
+        e = [r.choice([0.0, 0.0, 1.0, -0.5]) for _ in range(4)]
+        new = {"type": "RectangularRegion", "x1": cx - w - e[0], "y1": cy - h - e[1], "x2": cx + w + e[2],
+               "y2": cy + h + e[3]}
+        if r.random() < 0.4:
+            new[r.choice(["x1", "y1", "x2", "y2"])] = float("nan")
+    elif k < 0.8:
+        rad = r.choice([3.0, 5.0])
+        old = {"type": "CircularRegion", "cx": cx, "cy": cy, "r": rad}
+        new = {"type": "CircularRegion", "cx": cx + r.choice([0.0, 1.0, 3.0]), "cy": cy,
+               "r": rad + r.choice([0.0, 1.0, 2.9, 3.0, -1.0])}
+        if r.random() < 0.2:
+            new[r.choice(["cx", "cy", "r"])] = float("nan")
+    else:
+        rad = r.choice([3.0, 5.0])
+        old = {"type": "CircularRegion", "cx": cx, "cy": cy, "r": rad}
+        e = [rad + r.choice([0.0, 0.5, -0.5, 2.0]) for _ in range(4)]
+        new = {"type": "RectangularRegion", "x1": cx - e[0], "y1": cy - e[1], "x2": cx + e[2], "y2": cy + e[3]}
+    return old, new
+
+
+def search_c12(pid, r, n, stats):
+    """directed: during a print with shrinking off, replace a region by one that almost covers it"""
+    from . import oracle_plugin, gen
+    st0 = {"clear": False, "shrink": False, "cfg": {"g90e": False, "enter": None, "exit": None, "ext": {}}}
+    for _ in range(n):
+        old, new = _c12_pair(r)
+        ops = [("event", "PRINT_STARTED"), ("api", False, "addExcludeRegion", dict(old, id="a")),
+               ("api", False, "updateExcludeRegion", dict(new, id="a"))]
+        stats["evaluations"] += 1
+        stats["nontrivial"].add(zlib.crc32(repr(ops).encode()))
+        v = oracle_plugin.judge_plugin(st0, ops, [pid])
+        if v:
+            return {"kind": "plugin", "property": pid, "settings": st0, "ops": [list(o) for o in ops], "violations": v}
+    return search_plugin(pid, r, max(1, n // 4), stats)
+
+
 def search_c10(pid, r, n, stats):
     from . import suites, oracle_plugin, impl
     for _ in range(n):
@@ -295,11 +343,11 @@ def search_c20(pid, r, n, stats):
     return None
 
 
-SEARCH = {"filter": search_filter, "plugin": search_plugin, "c10": search_c10, "c08": search_c08,
+SEARCH = {"filter": search_filter, "plugin": search_plugin, "c12": search_c12, "c10": search_c10, "c08": search_c08,
           "c16": search_c16, "c17": search_c17, "c18": search_c18, "c19": search_c19, "c20": search_c20}
 
 ORACLE_N = {  # (quick when ties hold, search size when a tie is broken / thorough)
-    "filter": (150, 3000), "plugin": (60, 1200), "c10": (40, 800), "c08": (25, 500), "c16": (150, 4000),
+    "filter": (150, 3000), "plugin": (60, 1200), "c12": (120, 3000), "c10": (40, 800), "c08": (25, 500), "c16": (150, 4000),
     "c17": (400, 20000), "c18": (500, 30000), "c19": (600, 30000), "c20": (80, 2500),
 }
 
@@ -365,6 +413,12 @@ def run_property(pid, tier, seed):
                 broken.append({"tie": "axiom-audit", "detail": problems[:6]})
         elif not P["theorems"]:
             notes.append("registry lists no theorem for %s yet (property not claimed in MANIFEST)" % pid)
+        if tier == "thorough" and lean_ok and os.path.exists(modpath):
+            # independent re-check of the compiled proofs by the toolchain's kernel re-checker
+            rc, out = checker.sh(["lake", "env", "leanchecker", P["module"]], cwd=checker.LEAN, timeout=3600)
+            obligations.append(("leanchecker %s" % P["module"], rc == 0))
+            if rc != 0:
+                broken.append({"tie": "leanchecker", "detail": out[-400:]})
 
     # ---- 3 correspondence suites
     suite_stats = {}
@@ -442,7 +496,7 @@ def run_property(pid, tier, seed):
             if found:
                 found["from"] = "shrunk correspondence mismatch"
                 break
-        elif d.get("kind") == "plugin" and okind == "plugin":
+        elif d.get("kind") == "plugin" and okind in ("plugin", "c12"):
             from . import oracle_plugin
             v = oracle_plugin.judge_plugin(d["settings"], d["ops"], [pid])
             if v:
